@@ -417,7 +417,10 @@ INPUT_FORMS = ["{n} INPUT {v}", "{n} PRINT \"Q\"; : INPUT {v}", "{n} X = 1 : INP
                "{n} IF 0 THEN PRINT \"no\" ELSE INPUT {v} : PRINT \"tail\"", "{n} IF 1 THEN INPUT {v} : PRINT \"t2\"",
                "{n} FOR I = 1 TO 2 : INPUT {v} : NEXT I",
                "{n} INPUT Q9 : PRINT \"GOT\" : INPUT {v}", "{n} IF 0 THEN INPUT Q9 ELSE INPUT {v}",
-               "{n} INPUT Q9$ : INPUT {v} : PRINT \"t3\""]
+               "{n} INPUT Q9$ : INPUT {v} : PRINT \"t3\"",
+               # an IF that is not the first statement of its line: the ELSE met after the INPUT resumes belongs to it
+               "{n} PRINT \"Q\"; : IF 1 THEN INPUT {v} ELSE PRINT \"no\"", "{n} X = 1 : IF X THEN INPUT {v} ELSE PRINT \"no\" : PRINT \"t4\"",
+               "{n} X = 0 : PRINT \"p\" : IF X THEN PRINT \"no\" ELSE INPUT {v}"]
 TARGETS = [("A", "num"), ("X", "num"), ("A$", "str"), ("N(2)", "num"), ("N(I)", "num"), ("T$(1)", "str"), ("M(1,2)", "num")]
 NUM_REPLIES = [("5", "5"), (" 7 ", "7"), ("3.5", "3.5"), ("-2", "-2"), ("1e2", "100"), ("+4", "4"), (".5", ".5"), ("007", "7")]
 STR_REPLIES = [("日本", '"日本"'), ("éé", '"éé"'), ("héllo wörld", '"héllo wörld"'), ("😊", '"😊"'), ("hello", '"hello"'), ("", '""'), ("a b", '"a b"'), ('"q,r"', '"q,r"'), ("  pad  ", '"pad"'), ("12", '"12"'),
@@ -429,6 +432,8 @@ EXTRA = [",9", " , x", ":tail", ", 1, 2"]
 C08_FORCED = [("A$", "str", INPUT_FORMS[0], rep, lit, ex)
               for rep, lit in (("日本", '"日本"'), ("éé", '"éé"'), ("héllo wörld", '"héllo wörld"'), ("😊", '"😊"'), ("é", '"é"'))
               for ex in (":x", ":", ", y", " :tail")]
+C08_FORCED += [(tg, kd, INPUT_FORMS[k], rep, lit, "") for k in (-3, -2, -1)
+               for tg, kd, rep, lit in (("X", "num", "7", "7"), ("N(I)", "num", "5", "5"), ("A$", "str", "hello", '"hello"'))]
 
 
 def run_c08(chk):
